@@ -15,7 +15,7 @@ RULE = ('Random histories of add / merge / += / *= k (k<=5) / reset / clone over
         'be observed unchanged; *=, reset; iteration yields exactly LEN ((lower, upper), count) items in order; widths, centers, '
         'normalized_bins predicted bit-for-bit as single IEEE operations (inf, NaN for 0/0 and inf-inf included); variance(i) and '
         'variances() against exact c(1-c/N) within 4u*max(c,N/4) and each other within 2 ulp, NaN for an empty histogram. '
-        'Commutativity / associativity / merge == += follow from equality with the model. Counts stay below 2^40. '
+        'Commutativity / associativity / merge == += follow from equality with the model. Counts stay below 2^61 (no u64 overflow) but are driven beyond 2^53 by *= with large factors. '
         'distinct_nontrivial = distinct (type, program) histories with >= 1 successful merge or +=.')
 ASSUME = ['driver faithfully prints histogram views', 'model: monitors/histmodel.py', 'python float arithmetic is IEEE-754 binary64 (for the views)']
 
@@ -105,6 +105,8 @@ def shard(desc):
             elif x < 0.7:
                 a, b = rng.randrange(3), rng.randrange(3)
                 code = rng.choice(['M', 'H+'])
+                if sum(model[a].bins) + sum(model[b].bins) >= 2 ** 61:
+                    continue        # stay clear of u64 overflow
                 k = c.op(code, a, b)
                 if a == b:
                     other = model[b].clone()
@@ -120,10 +122,15 @@ def shard(desc):
             elif x < 0.82:
                 r_ = rng.randrange(3)
                 kk = rng.randint(0, 5)
-                if max(model[r_].bins + [0]) * max(kk, 1) < 2 ** 40:
+                if rng.random() < 0.15:
+                    # drive the counts beyond 2^53, where a count is no longer exact as an f64 (still far from u64 overflow)
+                    kk = rng.choice([2 ** 30, 2 ** 45, 2 ** 53 + 1, 3 ** 33])
+                if sum(model[r_].bins) * max(kk, 1) < 2 ** 60 and all(sum(m.bins) < 2 ** 60 for m in model):
                     c.op('H*', r_, kk)
                     model[r_].mul(kk)
                     res.count('mul_ops')
+                    if sum(model[r_].bins) > 2 ** 53:
+                        res.count('histograms_beyond_2^53')
             elif x < 0.9:
                 r_ = rng.randrange(3)
                 c.op('HZ', r_)
@@ -202,7 +209,7 @@ def run(tier, seed):
             total.merge(common.run_shards(shard, descs))
     except common.Inconclusive as e:
         total.inconclusive.append(str(e))
-    need = {'mismatch_merges': 500, 'ok_merges_merge': 500, 'ok_merges_add_assign': 500, 'mul_ops': 500, 'reset_ops': 300,
+    need = {'histograms_beyond_2^53': 20, 'mismatch_merges': 500, 'ok_merges_merge': 500, 'ok_merges_add_assign': 500, 'mul_ops': 500, 'reset_ops': 300,
             'observations_after_expected_panic': 1000}
     for L in (1, 2, 3, 4, 7, 10, 100):
         need['histories_H%d' % L] = 20
